@@ -9,3 +9,4 @@ open SSVerif.FeSwap
 #print axioms C06_swap_process_refines
 #print axioms C06_swap_sites_match_model
 #print axioms C06_swap_after_schedule
+#print axioms C06_swap_window_values
